@@ -201,6 +201,10 @@ def pit_case(draw, tier):
             "cst": draw(st.one_of(unit.map(lambda u: u / 2),
                                   st.sampled_from([0., 0.3, 0.5]))),
             "censor": draw(st.sampled_from([-2., 0., -2.25, 3., -10.])),
+            # how an observation tied with members is counted
+            "kind": draw(st.sampled_from(["rank", "rank", "weak", "strict",
+                                          "mean"])),
+            "sudo": draw(st.sampled_from([5, 5, 0, 50, 100])),
             "seed": draw(st.integers(0, 2**31 - 1))}
 
 
@@ -210,12 +214,15 @@ def pit_oracle(case):
     n, m = ens.shape
     censor = case["censor"]
     np.random.seed(case["seed"])
+    kind = case.get("kind", "rank")
+    kw = {} if kind == "rank" else {"kind": kind}
     p, s = metrics.pit(obs.copy(), ens.copy(), random=case["random"],
-                       cst=case["cst"], censor=censor)
-    labels = [f"random:{case['random']}", f"obs-ties:{case['tied']}"]
+                       cst=case["cst"], censor=censor, **kw)
+    labels = [f"random:{case['random']}", f"obs-ties:{case['tied']}",
+              f"kind:{kind}"]
     np.random.seed(case["seed"])
     p2, s2 = metrics.pit(obs.tolist(), ens.tolist(), random=case["random"],
-                         cst=case["cst"], censor=censor)
+                         cst=case["cst"], censor=censor, **kw)
     if not (np.array_equal(p, p2) and np.array_equal(s, s2)):
         raise Violation("pit differs between array and list input")
     if p.shape != (n,) or s.shape != (n,):
@@ -249,6 +256,19 @@ def pit_oracle(case):
             if not np.allclose(p, e, atol=1e-12):
                 raise Violation(f"randomised pit {p.tolist()} != plotting "
                                 f"position {(e).tolist()}")
+    if not case["random"]:
+        # with ties: members below / at or below the observation, combined
+        # as the documented kinds of a percentile score
+        left = cnt
+        right = (ens <= obs[:, None]).sum(axis=1)
+        e = {"strict": left / m, "weak": right / m,
+             "mean": (left + right) / 2 / m,
+             "rank": (left + right + (right > left)) / 2 / m}[kind]
+        if not np.allclose(p, e, atol=1e-12):
+            raise Violation(f"pit(kind={kind}) {p.tolist()} != "
+                            f"{e.tolist()} for {left.tolist()} members "
+                            f"below and {right.tolist()} at or below the "
+                            "observations")
     es = (obs <= censor) & ((ens <= censor).sum(axis=1) > 0)
     if not np.array_equal(np.asarray(s, dtype=bool), es):
         raise Violation(
@@ -262,6 +282,14 @@ def pit_oracle(case):
         st_, pv, _ = metrics.alpha(obs.copy(), ens.copy(), type=ty)
         if not (0 <= pv <= 1):
             raise Violation(f"alpha({ty}) p-value {pv!r} outside [0, 1]")
+        np.random.seed(case["seed"])
+        st_, pv, _ = metrics.alpha(obs.copy(), ens.copy(), cst=case["cst"],
+                                   type=ty,
+                                   sudo_perc_threshold=case.get("sudo", 5))
+        if not (0 <= pv <= 1):
+            raise Violation(f"alpha({ty}, cst={case['cst']}, "
+                            f"sudo_perc_threshold={case.get('sudo', 5)}) "
+                            f"p-value {pv!r} outside [0, 1]")
     return {"nt": bool(es.any()), "labels": labels}
 
 
